@@ -359,6 +359,27 @@ pub fn c09(a: &Args) -> i32 {
                     }
                 }
                 drop((c, ac, wc));
+                // --- the connection is cut after the k-th response (a forwarding peer hangs up): every puller, the async ones
+                // included, returns an error - a prefix of the stream is not the value
+                if chunk <= 64 && depth <= 1 {
+                    let n = 6 * chunk;
+                    let res = format!("n={n},w={chunk},fail=-1,ps=0");
+                    for k in 1..=3usize {
+                        for via in ["pull_to_vec", "pull_to_vec_async"] {
+                            let p = proxy(srv.addr, k);
+                            let r: Result<Vec<u8>, RepeError> = if via == "pull_to_vec" {
+                                match Client::connect(p) { Ok(c) => svs::pull_to_vec(&c, &res), Err(e) => Err(e.into()) }
+                            } else {
+                                rt.block_on(async { match AsyncClient::connect(p).await { Ok(c) => svs::pull_to_vec_async(&c, &res).await, Err(e) => Err(e.into()) } })
+                            };
+                            let want = logical("writer", n);
+                            // "fail" = the response after which the connection went away (before the end of the stream)
+                            out.push(&json!({"ev": "pull", "via": format!("{via}_cut"), "producer": "writer", "n": n, "fail": (k * chunk).min(n - 1), "comp": compu, "chunk": chunk, "depth": depth,
+                                             "ok": r.is_ok(), "equal": r.as_ref().map(|v| *v == want).unwrap_or(false), "got_len": r.as_ref().map(|v| v.len()).unwrap_or(0)}));
+                            n_pulls += 1;
+                        }
+                    }
+                }
                 // --- the other producer kinds (fewer sizes): raw exchange + typed pullers
                 if chunk <= 64 || chunk == 1 << 16 {
                     for kind in ["reader", "value", "typed", "complex"] {
